@@ -36,6 +36,7 @@ static cstl_weak_ptr_t W[NW];
 static cstl_unique_ptr_t U[NU];
 static int Sa[NS], Wa[NW], Ua[NU];      /* model: allocation index or -1 */
 static int ns, nw, nu;
+static int use_macro;
 static uintptr_t upriv[NU];             /* priv cookie stored with each unique allocation */
 
 /* merged event log of one call: clear callbacks and allocator frees, in order */
@@ -412,9 +413,20 @@ static void st_create(int scope)
     int i;
     ns = scope & 15; nw = (scope >> 4) & 15; nu = (scope >> 8) & 15;
     nA = 0;
-    for (i = 0; i < ns; i++) { cstl_shared_ptr_init(&S[i]); Sa[i] = -1; }
-    for (i = 0; i < nw; i++) { cstl_weak_ptr_init(&W[i]); Wa[i] = -1; }
-    for (i = 0; i < nu; i++) { cstl_unique_ptr_init(&U[i]); Ua[i] = -1; upriv[i] = 0x1000 * (i + 1); }
+    /* both documented ways of making the objects: the init functions and the static initialiser macros */
+    for (i = 0; i < ns; i++) {
+        if (use_macro) S[i] = (cstl_shared_ptr_t)CSTL_SHARED_PTR_INITIALIZER(S[i]); else cstl_shared_ptr_init(&S[i]);
+        Sa[i] = -1;
+    }
+    for (i = 0; i < nw; i++) {
+        if (use_macro) W[i] = (cstl_weak_ptr_t)CSTL_WEAK_PTR_INITIALIZER(W[i]); else cstl_weak_ptr_init(&W[i]);
+        Wa[i] = -1;
+    }
+    for (i = 0; i < nu; i++) {
+        if (use_macro) U[i] = (cstl_unique_ptr_t)CSTL_UNIQUE_PTR_INITIALIZER(U[i]); else cstl_unique_ptr_init(&U[i]);
+        Ua[i] = -1; upriv[i] = 0x1000 * (i + 1);
+    }
+    if (use_macro) VRT_COUNT("objects.made-with-initializer-macros");
 }
 static void st_destroy(void)
 {
@@ -504,6 +516,7 @@ static void run_closure(int ci)
                   s->s, s->w, s->u, n, s->depth);
     /* every new allocation is a fresh record, so the signature abstracts allocation identity;
      * depth-capped: this is the bounded-exhaustive sequence generator over the owner-set closure */
+    use_macro = ci & 1;
     vex_closure(&model, SCOPE(s->s, s->w, s->u), al, n, 3000000, s->depth, &r);
     VRT_COUNT_N("closure.states", r.states);
     VRT_COUNT_N("closure.transitions", r.transitions);
@@ -519,6 +532,7 @@ static void run_random(uint64_t idx)
     int n;
     vrt_rng_seed(&g, vrt_seed, 0xC05000 + idx);
     vrt_case_note("random history: 3 shared, 3 weak, 2 unique, %d ops", nops);
+    use_macro = idx & 1;
     st_create(SCOPE(NS, NW, NU));
     n = build_alphabet(NS, NW, NU, al);
     for (i = 0; i < nops; i++) {
